@@ -125,18 +125,26 @@ theorem cl_kind_intersect (eps : ℝ) (c : Circle ℝ) (l : Line ℝ) (hu : Unit
   have : t ^ 2 = 0 := by linear_combination (t ^ 2) * (-hunit) + (ox * t) * e2 + (oy * t) * e1
   linarith
 
-/-- `intersect_cc`, distinct centres: the two points of the crossing branch lie exactly on both circles; a touch
-    point lies exactly on the larger circle and within `eps` of the other one. -/
-theorem cc_points_on_both (eps : ℝ) (a b : Circle ℝ) (heps : 0 ≤ eps) (ha : 0 ≤ a.r) (hb : 0 ≤ b.r) (hc : a.c ≠ b.c) :
+/-- `intersect_cc`, *any* two circles with non-negative radii (concentric ones included — after fix 542ea35 the code
+    answers `Same` / `None` there and reports no point): the two points of the crossing branch lie exactly on both
+    circles; a touch point lies exactly on the larger circle and within `eps` of the other one. -/
+theorem cc_points_on_both (eps : ℝ) (a b : Circle ℝ) (heps : 0 < eps) (ha : 0 ≤ a.r) (hb : 0 ≤ b.r) :
     match intersectCC (realGeo eps) a b with
     | .none => True
     | .same => True
     | .touchInside p => (OnCircle a p ∨ OnCircle b p) ∧ |Geometry.edist p a.c - a.r| ≤ eps ∧ |Geometry.edist p b.c - b.r| ≤ eps
     | .touchOutside p => (OnCircle a p ∨ OnCircle b p) ∧ |Geometry.edist p a.c - a.r| ≤ eps ∧ |Geometry.edist p b.c - b.r| ≤ eps
     | .intersect p q => OnCircle a p ∧ OnCircle b p ∧ OnCircle a q ∧ OnCircle b q := by
-  have h := cc_points eps a b heps ha hb hc
+  have h := cc_points eps a b heps ha hb
   revert h
   cases intersectCC (realGeo eps) a b <;> exact id
+
+/-- concentric circles are answered `Same` or `None` — no point is reported, whatever the radii (fix 542ea35) -/
+theorem cc_concentric_no_point (eps : ℝ) (a b : Circle ℝ) (heps : 0 < eps) (hc : a.c = b.c) :
+    intersectCC (realGeo eps) a b = CC.same ∨ intersectCC (realGeo eps) a b = CC.none := by
+  rcases intersectCC_cases eps a b with ⟨h, e⟩ | ⟨h, e⟩
+  · rw [e]; exact ccOrdered_zero_kind eps b a heps h.le (by rw [hc, edist_self])
+  · rw [e]; exact ccOrdered_zero_kind eps a b heps h (by rw [hc, edist_self])
 
 /-- centres farther apart than `r1 + r2 + eps`: `None`, and the circles really have no common point -/
 theorem cc_kind_none_outside (eps : ℝ) (a b : Circle ℝ) (heps : 0 ≤ eps) (ha : 0 ≤ a.r) (hb : 0 ≤ b.r)
@@ -178,15 +186,15 @@ theorem cc_kind_touch_outside (eps : ℝ) (a b : Circle ℝ) (ha : eps ≤ a.r) 
   · rw [e]; exact ccOrdered_touch_outside eps a b hb hle (by linarith) (by linarith)
 
 /-- within `eps` of inner tangency (`d ≈ |r1 - r2|`, centres at least `eps` apart) the result is `TouchInside` -/
-theorem cc_kind_touch_inside (eps : ℝ) (a b : Circle ℝ) (h0 : eps ≤ Geometry.edist a.c b.c)
+theorem cc_kind_touch_inside (eps : ℝ) (a b : Circle ℝ) (heps : 0 < eps) (h0 : eps ≤ Geometry.edist a.c b.c)
     (h1 : |a.r - b.r| - eps ≤ Geometry.edist a.c b.c) (h2 : Geometry.edist a.c b.c < |a.r - b.r| + eps) :
     ∃ p, intersectCC (realGeo eps) a b = CC.touchInside p := by
   rcases intersectCC_cases eps a b with ⟨hlt, e⟩ | ⟨hle, e⟩
   · have habs : |a.r - b.r| = b.r - a.r := by rw [abs_of_neg (by linarith)]; ring
     rw [habs] at h1 h2
-    rw [e]; exact ccOrdered_touch_inside eps b a (by rw [edist_comm]; linarith) (by rw [edist_comm]; linarith) (by rw [edist_comm]; linarith)
+    rw [e]; exact ccOrdered_touch_inside eps b a heps (by rw [edist_comm]; linarith) (by rw [edist_comm]; linarith) (by rw [edist_comm]; linarith)
   · rw [abs_of_nonneg (by linarith)] at h1 h2
-    rw [e]; exact ccOrdered_touch_inside eps a b h0 h1 h2
+    rw [e]; exact ccOrdered_touch_inside eps a b heps h0 h1 h2
 
 /-- properly crossing circles (`|r1 - r2| + eps ≤ d < r1 + r2 - eps`), in either argument order (the swap by radius):
     `Intersect` with two *distinct* points, each exactly on both circles -/
@@ -194,12 +202,7 @@ theorem cc_kind_intersect (eps : ℝ) (a b : Circle ℝ) (heps : 0 < eps) (ha : 
     (h1 : |a.r - b.r| + eps ≤ Geometry.edist a.c b.c) (h2 : Geometry.edist a.c b.c < a.r + b.r - eps) :
     ∃ p q, intersectCC (realGeo eps) a b = CC.intersect p q ∧ p ≠ q ∧
       OnCircle a p ∧ OnCircle b p ∧ OnCircle a q ∧ OnCircle b q := by
-  have hc : a.c ≠ b.c := by
-    intro hc
-    have : Geometry.edist a.c b.c = 0 := by rw [hc, edist_self]
-    have := abs_nonneg (a.r - b.r)
-    linarith
-  have hpts := cc_points eps a b heps.le ha hb hc
+  have hpts := cc_points eps a b heps ha hb
   have hex : ∃ p q, intersectCC (realGeo eps) a b = CC.intersect p q ∧ p ≠ q := by
     rcases intersectCC_cases eps a b with ⟨hlt, e⟩ | ⟨hle, e⟩
     · have habs : |a.r - b.r| = b.r - a.r := by rw [abs_of_neg (by linarith)]; ring
@@ -314,8 +317,8 @@ These theorems say that whenever that code commits to an answer, the real-number
 same answer; `nearCircle_iff` / `nearLine_iff` say that the point predicate of mode `P` is the stated distance bound. -/
 
 /-- whenever the executable exact spec commits to a circle–line kind, the real-number model returns that kind
-    (for every `0 < eps < 1e-8`, so in particular for `util::EPS = 1e-9`) -/
-theorem specKindCL_sound (eps : ℝ) (heps : 0 < eps) (hm : eps < 1 / 10 ^ 8) (qc : QCircle) (ql : QLine)
+    (for every `0 < eps < 1.01e-9`, so in particular for `util::EPS = 1e-9`) -/
+theorem specKindCL_sound (eps : ℝ) (heps : 0 < eps) (hm : eps < 101 / 10 ^ 11) (qc : QCircle) (ql : QLine)
     (hc : qc.WF) (hl : ql.WF) (hr : 0 ≤ qc.r.val) (k : String) (h : specKindCL qc ql = some k) :
     (intersectCL (realGeo eps) qc.val (ql.val eps)).kind = k := by
   obtain ⟨hcc, hcr⟩ := hc
@@ -348,7 +351,7 @@ theorem specKindCL_sound (eps : ℝ) (heps : 0 < eps) (hm : eps < 1 / 10 ^ 8) (q
     cases h
     rw [Q.le_iff (Q.wf_mul (Q.wf_sq (Q.wf_add hcr hmw)) wfN) wfS,
       Q.val_mul (Q.wf_sq (Q.wf_add hcr hmw)) wfN, Q.val_sq (Q.wf_add hcr hmw), Q.val_add hcr hmw, vS, vN, hmv] at c1
-    have := (le_abs_div_sqrt hnpos (by linarith : (0:ℝ) ≤ qc.r.val + 1 / 10 ^ 8)).mpr c1
+    have := (le_abs_div_sqrt hnpos (by linarith : (0:ℝ) ≤ qc.r.val + 101 / 10 ^ 11)).mpr c1
     rw [(cl_kind_none eps qc.val (ql.val eps) hu heps.le hr (by rw [hsd]; show qc.r.val + eps < _; linarith)).1]
     rfl
   rw [if_neg c1] at h
@@ -357,7 +360,7 @@ theorem specKindCL_sound (eps : ℝ) (heps : 0 < eps) (hm : eps < 1 / 10 ^ 8) (q
     cases h
     rw [Bool.and_eq_true, Q.le_iff hmw hcr, Q.le_iff wfS (Q.wf_mul (Q.wf_sq (Q.wf_sub hcr hmw)) wfN),
       Q.val_mul (Q.wf_sq (Q.wf_sub hcr hmw)) wfN, Q.val_sq (Q.wf_sub hcr hmw), Q.val_sub hcr hmw, vS, vN, hmv] at c2
-    have := (abs_div_sqrt_le hnpos (by linarith : (0:ℝ) ≤ qc.r.val - 1 / 10 ^ 8)).mpr c2.2
+    have := (abs_div_sqrt_le hnpos (by linarith : (0:ℝ) ≤ qc.r.val - 101 / 10 ^ 11)).mpr c2.2
     obtain ⟨p, q, e, _⟩ := cl_kind_intersect eps qc.val (ql.val eps) hu heps
       (by rw [hsd]; show _ < qc.r.val - eps; linarith)
     rw [e]; rfl
@@ -373,7 +376,7 @@ theorem specKindCL_sound (eps : ℝ) (heps : 0 < eps) (hm : eps < 1 / 10 ^ 8) (q
     rw [e]; rfl
   · rw [if_neg c3] at h; cases h
 /-- the same for circle–circle kinds (radii at least `eps`, centres identical or at least `eps` apart) -/
-theorem specKindCC_sound (eps : ℝ) (heps : 0 < eps) (hm : eps < 1 / 10 ^ 8) (qa qb : QCircle)
+theorem specKindCC_sound (eps : ℝ) (heps : 0 < eps) (hm : eps < 101 / 10 ^ 11) (qa qb : QCircle)
     (ha : qa.WF) (hb : qb.WF) (hra : eps ≤ qa.r.val) (hrb : eps ≤ qb.r.val)
     (hsep : (qDist2 qa.c qb.c).val = 0 ∨ eps ≤ Geometry.edist qa.val.c qb.val.c)
     (k : String) (h : specKindCC qa qb = some k) :
@@ -457,7 +460,7 @@ theorem specKindCC_sound (eps : ℝ) (heps : 0 < eps) (hm : eps < 1 / 10 ^ 8) (q
         have hd' : d = 0 := by nlinarith
         apply hne; linarith
       · exact e
-    obtain ⟨p, e⟩ := cc_kind_touch_inside eps qa.val qb.val hdpos
+    obtain ⟨p, e⟩ := cc_kind_touch_inside eps qa.val qb.val heps hdpos
       (by show |qa.r.val - qb.r.val| - eps ≤ d; linarith) (by show d < |qa.r.val - qb.r.val| + eps; linarith)
     rw [e]; rfl
   rw [if_neg c5] at h
@@ -474,7 +477,7 @@ theorem specKindCC_sound (eps : ℝ) (heps : 0 < eps) (hm : eps < 1 / 10 ^ 8) (q
     rw [e]; rfl
   · rw [if_neg c6] at h; cases h
 /-- the same for `Circle::position` -/
-theorem specPosition_sound (eps : ℝ) (heps : 0 ≤ eps) (hm : eps < 1 / 10 ^ 8) (qc : QCircle) (qp : QPoint)
+theorem specPosition_sound (eps : ℝ) (heps : 0 ≤ eps) (hm : eps < 101 / 10 ^ 11) (qc : QCircle) (qp : QPoint)
     (hc : qc.WF) (hp : qp.WF) (hr : 0 < qc.r.val) (k : String) (h : specPosition qc qp = some k) :
     (position (realGeo eps) qc.val qp.val).toString = k := by
   obtain ⟨hcc, hcr⟩ := hc
@@ -486,7 +489,7 @@ theorem specPosition_sound (eps : ℝ) (heps : 0 ≤ eps) (hm : eps < 1 / 10 ^ 8
   have spec := position_spec eps heps qc.val hr qp.val
   set d := Geometry.edist qp.val qc.val.c with hddef
   have hrv : qc.val.r = qc.r.val := rfl
-  have hmr : eps * qc.r.val ≤ 1 / 10 ^ 8 * qc.r.val := by nlinarith
+  have hmr : eps * qc.r.val ≤ 101 / 10 ^ 11 * qc.r.val := by nlinarith
   simp only [specPosition] at h
   by_cases c1 : ((qDist2 qp qc.c).eq qc.r.sq) = true
   · rw [if_pos c1] at h; cases h
@@ -511,7 +514,7 @@ theorem specPosition_sound (eps : ℝ) (heps : 0 ≤ eps) (hm : eps < 1 / 10 ^ 8
   · rw [if_neg c3] at h; cases h
 
 /-- the same for `Line::contains` -/
-theorem specContains_sound (eps : ℝ) (heps : 0 < eps) (hm : eps < 1 / 10 ^ 8) (ql : QLine) (qp : QPoint)
+theorem specContains_sound (eps : ℝ) (heps : 0 < eps) (hm : eps < 101 / 10 ^ 11) (ql : QLine) (qp : QPoint)
     (hl : ql.WF) (hp : qp.WF) (k : String) (h : specContains ql qp = some k) :
     showBool (lineContains (realGeo eps) (ql.val eps) qp.val) = k := by
   have wfE := QLine.wf_eval hl hp
@@ -542,7 +545,7 @@ theorem specContains_sound (eps : ℝ) (heps : 0 < eps) (hm : eps < 1 / 10 ^ 8) 
   by_cases c2 : ((margin.sq * ql.n2).le (ql.eval qp).sq) = true
   · rw [if_pos c2] at h; cases h
     rw [Q.le_iff (Q.wf_mul (Q.wf_sq hmw) wfN) wfS, Q.val_mul (Q.wf_sq hmw) wfN, Q.val_sq hmw, vS, vN, hmv] at c2
-    have := (le_abs_div_sqrt hnpos (by norm_num : (0:ℝ) ≤ 1 / 10 ^ 8)).mpr c2
+    have := (le_abs_div_sqrt hnpos (by norm_num : (0:ℝ) ≤ 101 / 10 ^ 11)).mpr c2
     have hf : lineContains (realGeo eps) (ql.val eps) qp.val = false := by
       rw [Bool.eq_false_iff]
       intro ht
@@ -550,8 +553,8 @@ theorem specContains_sound (eps : ℝ) (heps : 0 < eps) (hm : eps < 1 / 10 ^ 8) 
       rw [hsd] at this; linarith
     rw [hf]; rfl
   · rw [if_neg c2] at h; cases h
-/-- the same for `intersect_ll`: exactly parallel ⇒ `None`, `|sin| ≥ 1e-8` ⇒ `Some` -/
-theorem specKindLL_sound (eps : ℝ) (heps : 0 < eps) (hm : eps < 1 / 10 ^ 8) (qu qv : QLine)
+/-- the same for `intersect_ll`: exactly parallel ⇒ `None`, `|sin| ≥ 1.01e-9` ⇒ `Some` -/
+theorem specKindLL_sound (eps : ℝ) (heps : 0 < eps) (hm : eps < 101 / 10 ^ 11) (qu qv : QLine)
     (hu : qu.WF) (hv : qv.WF) (k : String) (h : specKindLL qu qv = some k) :
     llKind (intersectLL (realGeo eps) (qu.val eps) (qv.val eps)) = k := by
   have wN1 := QLine.wf_n2 hu
@@ -595,7 +598,7 @@ theorem specKindLL_sound (eps : ℝ) (heps : 0 < eps) (hm : eps < 1 / 10 ^ 8) (q
   · rw [if_pos c2] at h; cases h
     rw [Q.le_iff (Q.wf_mul (Q.wf_sq hmw) (Q.wf_mul wN1 wN2)) (Q.wf_sq wcr), Q.val_mul (Q.wf_sq hmw) (Q.wf_mul wN1 wN2),
       Q.val_sq hmw, Q.val_mul wN1 wN2, vN1, vN2, Q.val_sq wcr, vcr, hmv] at c2
-    have := (le_abs_div_sqrt hprod (by norm_num : (0:ℝ) ≤ 1 / 10 ^ 8)).mpr c2
+    have := (le_abs_div_sqrt hprod (by norm_num : (0:ℝ) ≤ 101 / 10 ^ 11)).mpr c2
     rw [if_neg (by rw [hcross, abs_div, abs_of_pos (Real.sqrt_pos.mpr hprod)]; linarith)]; rfl
   · rw [if_neg c2] at h; cases h
 
@@ -676,11 +679,14 @@ example : ∃ p, intersectCC (realGeo 1e-9) ⟨⟨0, 0⟩, 2⟩ ⟨⟨3, 4⟩, 3
     (by simp only [edist_345]; norm_num) (by simp only [edist_345]; norm_num)
 
 example : ∃ p, intersectCC (realGeo 1e-9) ⟨⟨0, 0⟩, 2⟩ ⟨⟨3, 4⟩, 7⟩ = CC.touchInside p :=
-  cc_kind_touch_inside 1e-9 ⟨⟨0, 0⟩, 2⟩ ⟨⟨3, 4⟩, 7⟩ (by simp only [edist_345]; norm_num)
+  cc_kind_touch_inside 1e-9 ⟨⟨0, 0⟩, 2⟩ ⟨⟨3, 4⟩, 7⟩ (by norm_num) (by simp only [edist_345]; norm_num)
     (by simp only [edist_345]; norm_num) (by simp only [edist_345]; norm_num)
 
 example := cc_points_on_both 1e-9 ⟨⟨0, 0⟩, 2⟩ ⟨⟨3, 4⟩, 3⟩ (by norm_num) (by norm_num) (by norm_num)
-  (by simp only [ne_eq, Point.mk.injEq]; norm_num)
+-- concentric circles whose radii differ by exactly eps (the 542ea35 corner): no hypothesis excludes them
+example := cc_points_on_both 1e-9 ⟨⟨3, 4⟩, 1 + 1e-9⟩ ⟨⟨3, 4⟩, 1⟩ (by norm_num) (by norm_num) (by norm_num)
+
+example := cc_concentric_no_point 1e-9 ⟨⟨3, 4⟩, 1 + 1e-9⟩ ⟨⟨3, 4⟩, 1⟩ (by norm_num) rfl
 
 example := cc_radical_identity ⟨⟨0, 0⟩, 4⟩ ⟨⟨3, 4⟩, 3⟩ (by simp only [ne_eq, Point.mk.injEq]; norm_num) 1
 
